@@ -187,6 +187,21 @@ impl IdealTree {
         self.node_at(0, 0)
     }
 
+    /// All node values, level by level (levels[l][idx]); only for depth <= 12.
+    pub fn dense_levels(&self) -> Vec<Vec<Fr>> {
+        let mut levels: Vec<Vec<Fr>> = vec![Vec::new(); self.depth + 1];
+        levels[self.depth] = (0..self.cap()).map(|i| self.get(i)).collect();
+        for l in (0..self.depth).rev() {
+            let below = &levels[l + 1];
+            let mut cur = Vec::with_capacity(below.len() / 2);
+            for c in below.chunks(2) {
+                cur.push(if c[0] == self.defaults[l + 1] && c[1] == self.defaults[l + 1] { self.defaults[l] } else { h2(c[0], c[1]) });
+            }
+            levels[l] = cur;
+        }
+        levels
+    }
+
     /// Dense reference computation (self-test only; depth <= 12).
     pub fn root_dense(&self) -> Fr {
         let mut level: Vec<Fr> = (0..self.cap()).map(|i| self.get(i)).collect();
